@@ -12,3 +12,4 @@ pub mod json;
 pub mod runner;
 #[cfg(feature = "async")]
 pub mod aexec;
+pub mod sched;
